@@ -1,4 +1,5 @@
 import MxModel.Props.C03
+import MxModel.Proofs.StructMechCor
 /-!
 # C13 – deletion is complete (structural part)
 
@@ -7,7 +8,9 @@ defines the name.  Hence every way a deletion is triggered – deleting the defi
 reference, removing the base relation, deleting the base space (the linearisation then no
 longer contains it) – removes the derived copies that have no other definer, and keeps those
 that have one.  That modelx's incremental maintenance agrees with derivation from scratch is
-C03's correspondence; that old handles raise and that no value computed from a deleted
+C03's correspondence and, for the mechanism model, the theorem `C03.mech_refines_derivation`; its
+consequences for deletion are below (`no_orphan_derived`, `deleted_member_not_defined`,
+`deleted_space_leaves_no_trace`).  That old handles raise and that no value computed from a deleted
 object survives is decided by the implementation-only oracle of this check.
 -/
 namespace MxModel.C13
@@ -42,5 +45,87 @@ theorem linearisation_members (bases : α → List α) (d : Nat) (s : α) (r : L
 deleting both removes it. -/
 example : (derive ["B", "C", "A"] (fun s => if s = "A" then ["f"] else []) []).map (·.1) = ["f"] := by decide
 example : (derive ["B", "C", "A"] (fun _ => ([] : List String)) []).map (·.1) = [] := by decide
+
+/-! ## The mechanism: after any deletion no member without definer survives -/
+
+section mechanism
+open MxModel.SM
+
+/-- **No derived member survives without a definer** – in every reachable state, in particular in
+the state right after `delCells`, `delRef`, `delSpace` or `removeBases`: a derived member of `q`
+is the copy of a definition that exists *now* in a space of `q`'s *current* linearisation. -/
+theorem no_orphan_derived (kw : List String) (ops : List Op) (a : Attr) (q : Path) (n : String)
+    (m : Member) (hm : (St.run kw {} ops).mem a q n = some m) (hd : m.derived = true) :
+    ∃ b ∈ (St.run kw {} ops).tail q, (St.run kw {} ops).defd a b n = some m.payload := by
+  obtain ⟨b, hb⟩ := (C03.mech_derived_from_first_definer kw ops a q n).1 m hm hd
+  obtain ⟨h1, h2⟩ := firstDef_some _ a _ n b _ hb
+  exact ⟨b, h1, h2⟩
+
+/-- **A deleted cells / reference is gone from its space** as a definition; whatever the space
+still holds under the name is (by `no_orphan_derived`) the derived copy of another definition. -/
+theorem deleted_member_not_defined (kw : List String) (ops : List Op) (a : Attr) (p : Path) (name : String)
+    (st' : St) (hop : (St.run kw {} ops).delMember a p name = some st') : st'.defd a p name = none :=
+  defd_delMember _ st' (run_inv kw ops).wf.keys a p name hop
+
+/-- … and the copies derived from it alone are gone: after the deletion a sub space has the name
+only if it defines it itself or another space of its linearisation does. -/
+theorem deleted_member_closure (kw : List String) (ops : List Op) (a : Attr) (p : Path) (name : String)
+    (st' : St) (hop : (St.run kw {} ops).delMember a p name = some st') (q : Path)
+    (hnone : ∀ b ∈ st'.tail q, st'.defd a b name = none) (hq : st'.defd a q name = none) :
+    st'.mem a q name = none := by
+  have hinv : Inv st' := inv_delMember _ st' (run_inv kw ops) a p name hop
+  rw [hinv.mem_eq_derivation a q name, hq, (firstDef_eq_none st' a _ name).mpr hnone]
+  rfl
+
+/-- **A deleted space, with all its descendants, appears in no container, base list or
+linearisation**: after an accepted `delSpace p` no space whose id has prefix `p` is a space of the
+model, a direct base of a space, or a member of a linearisation. -/
+theorem deleted_space_leaves_no_trace (kw : List String) (ops : List Op) (p : Path) (st' : St)
+    (hop : (St.run kw {} ops).delSpace p = some st') (r : Path) (hr : isPrefix p r = true) :
+    r ∉ st'.ids ∧ (∀ q, r ∉ st'.basesOf q) ∧ (∀ q, r ∉ st'.tail q) ∧
+    (∀ a q n m, st'.mem a q n = some m → m.derived = true → ∃ b ∈ st'.tail q, b ≠ r ∧
+      st'.defd a b n = some m.payload) := by
+  have hinv : Inv st' := inv_delSpace _ st' (run_inv kw ops) p hop
+  have hr' : r ∉ st'.ids := by
+    intro h
+    have := ((ids_delSpace _ st' p hop r).mp h).2
+    rw [hr] at this; cases this
+  refine ⟨hr', fun q h => hr' (hinv.wf.bases q r h), fun q h => hr' (hinv.wf.tail_mem_ids q r h), ?_⟩
+  intro a q n m hm hd
+  have hg := hinv.good a q n
+  unfold Good1 at hg
+  rw [hm] at hg
+  obtain ⟨b, hb⟩ := hg hd
+  obtain ⟨h1, h2⟩ := firstDef_some st' a _ n b _ hb
+  exact ⟨b, h1, fun e => hr' (e ▸ hinv.wf.tail_mem_ids q b h1), h2⟩
+
+/-- the spaces outside the deleted tree stay -/
+theorem delete_keeps_the_rest (kw : List String) (ops : List Op) (p : Path) (st' : St)
+    (hop : (St.run kw {} ops).delSpace p = some st') (q : Path) (hq : q ∈ (St.run kw {} ops).ids)
+    (hnp : isPrefix p q = false) : q ∈ st'.ids :=
+  (ids_delSpace _ st' p hop q).mpr ⟨hq, hnp⟩
+
+/-! Non-vacuity: `D(B, C)`, `B(A)`, `C(A)`, `f` defined in `A` and `C`; a child `A.K` with a sub
+space `E(A.K)`.  Deleting `C.f` keeps `D.f` (now from `A`); deleting `A.f` too removes it;
+deleting `A` removes `A` and `A.K` from every base list and linearisation and the members
+derived from them. -/
+def delOps : List Op := [
+  .newSpace [] "A" [], .newCells ["A"] "f" 1, .newSpace [] "B" [["A"]], .newSpace [] "C" [["A"]],
+  .setFormula ["C"] "f" 2, .newSpace [] "D" [["B"], ["C"]], .newSpace ["A"] "K" [],
+  .newCells ["A", "K"] "g" 5, .newSpace [] "E" [["A", "K"]]]
+
+example : (St.run [] {} delOps).mem .cells ["E"] "g" = some { derived := true, payload := 5 } := by decide
+example : (St.run [] {} (delOps ++ [.delCells ["C"] "f"])).mem .cells ["D"] "f"
+    = some { derived := true, payload := 1 } := by decide
+example : (St.run [] {} (delOps ++ [.delCells ["C"] "f", .delCells ["A"] "f"])).mem .cells ["D"] "f" = none := by decide
+example : ((St.run [] {} delOps).step [] (.delSpace ["A"])).2 = true := by decide
+example : (St.run [] {} (delOps ++ [.delSpace ["A"]])).ids = [["B"], ["C"], ["D"], ["E"]] := by decide
+example : (St.run [] {} (delOps ++ [.delSpace ["A"]])).basesOf ["E"] = [] := by decide
+example : (St.run [] {} (delOps ++ [.delSpace ["A"]])).mem .cells ["E"] "g" = none := by decide
+example : (St.run [] {} (delOps ++ [.delSpace ["A"]])).tail ["D"] = [["B"], ["C"]] := by decide
+example : (St.run [] {} (delOps ++ [.delSpace ["A"]])).mem .cells ["D"] "f"
+    = some { derived := true, payload := 2 } := by decide
+
+end mechanism
 
 end MxModel.C13
